@@ -50,7 +50,7 @@ func foldCaseTests(fn *ssa.Function) []*ssa.BinOp {
 func init() {
 	core.Register(&core.Rule{
 		Name: "R-FOLD",
-		Doc: "Case folding: (1) every function that tests Flags&syntax.FoldCase on a syntax tree node and then consumes the node's runes must reach unicode.SimpleFold (directly or through module callees), unless it is a bool-valued detector or declines (its FoldCase branch returns at once): folding only ASCII letters, or only upper/lower, misses orbit members such as k/K/U+212A and is wrong for every non-ASCII letter; (2) in every fold-orbit helper (a function with a rune parameter that calls unicode.SimpleFold on it) the SimpleFold call dominates every return, i.e. no shortcut path computes the orbit without it. Necessary for C15 (simple case folding orbits) and C17 (case-fold literal variants are necessary literals).",
+		Doc: "Case folding: (1) every function that tests Flags&syntax.FoldCase on a syntax tree node and then consumes the node's runes must reach unicode.SimpleFold (directly or through module callees), unless it is a bool-valued detector or declines (its FoldCase branch returns at once): folding only ASCII letters, or only upper/lower, misses orbit members such as k/K/U+212A and is wrong for every non-ASCII letter; (2) in every fold-orbit helper (a function with a rune parameter that calls unicode.SimpleFold on it) the SimpleFold call dominates every return, i.e. no shortcut path computes the orbit without it; (3) the loop that walks the orbit exits only on the comparison with the start rune (no length cap). Necessary for C15 (simple case folding orbits) and C17 (case-fold literal variants are necessary literals).",
 		Min: 6, NeedSSA: true,
 		Run: func(p *core.Prog) *core.RuleResult {
 			res := &core.RuleResult{}
@@ -151,6 +151,37 @@ func init() {
 					}
 				}
 				res.Obligations = append(res.Obligations, o)
+				// (3) the orbit walk stops only when it returns to the start rune
+				comp, cyclic := blockSCCs(fn)
+				for _, b := range fn.Blocks {
+					for _, in := range b.Instrs {
+						c, ok := isSimpleFoldCall(in)
+						if !ok || !cyclic[comp[b.Index]] {
+							continue
+						}
+						o3 := core.Obligation{Key: "R-FOLD|" + core.FuncName(fn) + "|orbit walk ends only at the start rune", Pos: p.Pos(c.Pos()), Nontrivial: true, Status: core.Discharged, Detail: "the only exit of the SimpleFold loop compares the walk with the start rune"}
+						for _, lb := range fn.Blocks {
+							if comp[lb.Index] != comp[b.Index] || len(lb.Instrs) == 0 {
+								continue
+							}
+							iff, ok := lb.Instrs[len(lb.Instrs)-1].(*ssa.If)
+							if !ok {
+								continue
+							}
+							exits := comp[lb.Succs[0].Index] != comp[b.Index] || comp[lb.Succs[1].Index] != comp[b.Index]
+							if !exits {
+								continue
+							}
+							bo, ok := iff.Cond.(*ssa.BinOp)
+							isStartCmp := ok && (bo.Op == token.NEQ || bo.Op == token.EQL) && (bo.X == ssa.Value(first.Call.Args[0]) || bo.Y == ssa.Value(first.Call.Args[0]))
+							if !isStartCmp {
+								o3.Status = core.Violated
+								o3.Detail = fmt.Sprintf("the SimpleFold orbit loop has an exit at %s that does not test for the return to the start rune (a length cap or early stop): orbits longer than the cap lose members (theta, iota, Cyrillic te have four)", p.Pos(iff.Pos()))
+							}
+						}
+						res.Obligations = append(res.Obligations, o3)
+					}
+				}
 			}
 			res.Notes = append(res.Notes, fmt.Sprintf("FoldCase consumers: %d; fold-orbit helpers: %v", len(fns), helpers))
 			return res
